@@ -200,9 +200,11 @@ def main():
         inv = ch[k:i]
         names = re.findall(r'\n\t(?:FUNDED_STATE,\s*)?(\w+Flags)\b', inv)
         if not names: raise TranslateError('define_state_flags!: cannot find the type name in `%s`' % norm(inv)[:120])
-        own = re.findall(r',\s*(\w+), state_flags::(\w+),\s*(is_\w+), set_\w+, clear_\w+\)', inv)
-        for a, b, _ in own:
+        own5 = re.findall(r',\s*(\w+), state_flags::(\w+),\s*(is_\w+), (set_\w+), (clear_\w+)\)', inv)
+        own = [(a, b, g) for a, b, g, _, _ in own5]
+        for a, b, g, st, cl in own5:
             if a != b: raise TranslateError('define_state_flags! %s: flag %s is given the bit of %s' % (names[0], a, b))
+            if st != 'set_' + g[3:] or cl != 'clear_' + g[3:]: raise TranslateError('define_state_flags! %s: getter %s is paired with %s / %s' % (names[0], g, st, cl))
         types[names[0]] = ([f for f, _, _ in own], 'FUNDED_STATE' in inv, {g: f for f, _, g in own})
     for t in ('FundedStateFlags', 'FundingNegotiatedFlags', 'AwaitingChannelReadyFlags', 'ChannelReadyFlags', 'NegotiatingFundingFlags'):
         if t not in types: raise TranslateError('flag type %s not found' % t)
@@ -214,8 +216,9 @@ def main():
     # ---- which getter exists on ChannelState in which variant ---------------------------------------------
     k = ch.index('\nimpl ChannelState {'); ics = ch[k:match_brace(ch, ch.index('{', k))]
     getters = {}
-    for m in re.finditer(r'impl_state_flag!\(\s*(is_\w+),\s*set_\w+,\s*clear_\w+,\s*(\w+),?\s*\);', ics):
-        g, st = m.group(1), m.group(2)
+    for m in re.finditer(r'impl_state_flag!\(\s*(is_\w+),\s*(set_\w+),\s*(clear_\w+),\s*(\w+),?\s*\);', ics):
+        g, st = m.group(1), m.group(4)
+        if m.group(2) != 'set_' + g[3:] or m.group(3) != 'clear_' + g[3:]: raise TranslateError('impl_state_flag!: getter %s is paired with %s / %s' % (g, m.group(2), m.group(3)))
         if g not in flag_of_getter: raise TranslateError('impl_state_flag!: getter %s has no flag' % g)
         getters[g] = (flag_of_getter[g], ['FundingNegotiated', 'AwaitingChannelReady', 'ChannelReady'] if st == 'FUNDED_STATES' else [st])
     one(r'\(\$get: ident, \$set: ident, \$clear: ident, FUNDED_STATES\) => \{ impl_state_flag!\(\$get, \$set, \$clear, \[(FundingNegotiated, AwaitingChannelReady, ChannelReady)\]\); \};', norm(ch), 'impl_state_flag! FUNDED_STATES')
@@ -336,6 +339,82 @@ def main():
     tm = re.fullmatch(r'\{ if (self\.closing_negotiation_ready\(\)) \{ if (self\.context\.closing_signed_in_flight) \{ return Err\(ChannelError::close\(.*?\)\); \} else \{ self\.context\.closing_signed_in_flight = (true|false); \} \} Ok\(\(\)\) \}', b)
     if not tm: raise TranslateError('timer_check_closing_negotiation_progress changed shape: `%s`' % b[:300])
 
+    # ---- EFFECTS (round 6): which gate flag / field each action WRITES — the plumbing of CloseGate.step ----------------------
+    nch = norm(ch)
+    one(r'(fn \$set\(&mut self\) \{ match self \{ \$\( ChannelState::\$state\(flags\) => flags\.\$set\(\), \)\* _ => debug_assert!\(false, "[^"]*"\), \} \})', nch, 'impl_state_flag! setter')
+    one(r'(fn \$clear\(&mut self\) \{ match self \{ \$\( ChannelState::\$state\(flags\) => \{ let _ = flags\.\$clear\(\); \}, \)\* _ => debug_assert!\(false, "[^"]*"\), \} \})', nch, 'impl_state_flag! clearer')
+    GATE_FLAGS = ['peer_disconnected', 'monitor_update_in_progress', 'remote_shutdown_sent', 'local_shutdown_sent']
+    GATE_FIELDS = ['last_sent_closing_fee', 'pending_counterparty_closing_signed', 'closing_signed_in_flight']
+    W_RE = r'channel_state\s*\.\s*(set|clear)_(%s)\(\)|\.\s*(%s)\s*=(?!=)\s*(None|Some|true|false)\b' % ('|'.join(GATE_FLAGS), '|'.join(GATE_FIELDS))
+    def writes_in(text):
+        return [('%s_%s' % (m.group(1), m.group(2)) if m.group(1) else '%s=%s' % (m.group(3), m.group(4)), m.start()) for m in re.finditer(W_RE, text)]
+    # census over the whole file: (function, write) in text order
+    fns = [(m.group(1), m.end()) for m in re.finditer(r'\n\t(?:pub(?:\([a-z]+\))? )?fn (\w+)', ch)]
+    census = []
+    for w, pos in writes_in(ch):
+        owner = [n for n, st in fns if st < pos]
+        if not owner: raise TranslateError('write census: `%s` outside any function' % w)
+        census.append((owner[-1], w))
+    want_census = [('remove_uncommitted_htlcs_and_mark_paused', 'last_sent_closing_fee=None'), ('remove_uncommitted_htlcs_and_mark_paused', 'pending_counterparty_closing_signed=None'),
+                   ('remove_uncommitted_htlcs_and_mark_paused', 'set_peer_disconnected'), ('monitor_updating_paused', 'set_monitor_update_in_progress'),
+                   ('monitor_updating_restored', 'clear_monitor_update_in_progress'), ('channel_reestablish', 'clear_peer_disconnected'),
+                   ('timer_check_closing_negotiation_progress', 'closing_signed_in_flight=true'), ('shutdown', 'set_remote_shutdown_sent'), ('shutdown', 'set_local_shutdown_sent'),
+                   ('get_closing_signed_msg', 'last_sent_closing_fee=Some'), ('closing_signed', 'pending_counterparty_closing_signed=Some'), ('get_shutdown', 'set_local_shutdown_sent'),
+                   ('write', 'set_peer_disconnected')]
+    TRANSLATED_FNS = ['get_shutdown', 'shutdown', 'monitor_updating_paused', 'monitor_updating_restored', 'channel_reestablish', 'remove_uncommitted_htlcs_and_mark_paused']
+    extra = [c for c in census if c not in want_census and not (c[0] in TRANSLATED_FNS and '=' not in c[1])]
+    if extra: raise TranslateError('write census of the closing-gate flags / fields: new writer(s) %s (pinned list: %s)' % (extra, want_census))
+    # (a pinned site that DISAPPEARED is not an error here: it changes the translated *Writes below and breaks the theorems about them)
+    def setter(w, arg):
+        op, flag = w.split('_', 1)
+        return '(%s%s v %s)' % (op, camel(flag)[0].upper() + camel(flag)[1:], arg)
+    def chain(ws, where, allowed):
+        e = 'f'
+        for w, _ in ws:
+            if '=' in w: raise TranslateError('%s: unexpected write `%s`' % (where, w))
+            e = setter(w, e)
+        return e
+    # get_shutdown: every write comes after the last refusal
+    b = sole(ch, 'get_shutdown')
+    ws = writes_in(b)
+    if ws and b.rfind('return Err(') > ws[0][1]: raise TranslateError('get_shutdown: a gate flag is written before the last refusal')
+    gs_writes = chain(ws, 'get_shutdown', ['local_shutdown_sent'])
+    gs_pause = bool(re.search(r'let monitor_update = if update_shutdown_script \{ self\.context\.latest_monitor_update_id \+= 1; let monitor_update = ChannelMonitorUpdate \{[^;]*\}; self\.monitor_updating_paused\( false, false, false, Vec::new\(\), Vec::new\(\), Vec::new\(\), &&logger, \); self\.push_ret_blockable_mon_update\(monitor_update\) \} else \{ None \};', b))
+    if not gs_pause: raise TranslateError('get_shutdown: the ShutdownScript update no longer pauses the channel before it is queued')
+    # shutdown (the peer's): the chain of refusals, then the writes
+    b = sole(ch, 'shutdown')
+    EC = r'\{ return Err\(ChannelError::\w+\(.*?\)\); \}'
+    sm = re.match(r'^\{ if (.*?) ' + EC + r' let mut not_broadcasted_initial_funding = matches!\(self\.context\.channel_state, ChannelState::(\w+)\(_\)\); if matches!\(self\.context\.channel_state, ChannelState::(\w+)\(_\)\) \{ if let Some\(signing_session\) = self\.context\.interactive_tx_signing_session\.as_ref\(\) \{ if !signing_session\.has_holder_witnesses\(\) \{ not_broadcasted_initial_funding = true; \} \} \} if not_broadcasted_initial_funding ' + EC +
+                  r' for htlc in self\.context\.pending_inbound_htlcs\.iter\(\) \{ if let InboundHTLCState::RemoteAnnounced\(_\) = htlc\.state ' + EC + r' \} assert!\(!matches!\(self\.context\.channel_state, ChannelState::ShutdownComplete\)\); if (.*?) ' + EC + ' ', b)
+    if not sm: raise TranslateError('shutdown: the chain of refusals changed shape: `%s`' % b[:400])
+    if sm.group(2) not in VARIANTS or sm.group(3) not in VARIANTS: raise TranslateError('shutdown: unknown ChannelState variant in the not-yet-broadcast test')
+    sh_refused = '(%s) || (v == %d || (v == %d && no_holder_witnesses)) || remote_announced_htlc || (%s) || bad_script' % (
+        gcond(sm.group(1), 'shutdown refusal'), VARIANTS.index(sm.group(2)), VARIANTS.index(sm.group(3)), gcond(sm.group(4), 'shutdown refusal'))
+    ws = writes_in(b)
+    if ws and b.rfind('return Err(') > ws[0][1]: raise TranslateError('shutdown: a gate flag is written before the last refusal')
+    sh_writes = chain(ws, 'shutdown', ['remote_shutdown_sent', 'local_shutdown_sent'])
+    if not re.search(r'let monitor_update = if update_shutdown_script \{ self\.context\.latest_monitor_update_id \+= 1; let monitor_update = ChannelMonitorUpdate \{[^;]*\}; self\.monitor_updating_paused\( false, false, false, Vec::new\(\), Vec::new\(\), Vec::new\(\), logger, \); self\.push_ret_blockable_mon_update\(monitor_update\) \} else \{ None \};', b):
+        raise TranslateError('shutdown: the ShutdownScript update no longer pauses the channel before it is queued')
+    # monitor_updating_paused / monitor_updating_restored / channel_reestablish
+    pa_writes = chain(writes_in(sole(ch, 'monitor_updating_paused')), 'monitor_updating_paused', ['monitor_update_in_progress'])
+    b = sole(ch, 'monitor_updating_restored')
+    if not b.startswith('{ assert!(self.context.channel_state.is_monitor_update_in_progress());'): raise TranslateError('monitor_updating_restored no longer starts by asserting MONITOR_UPDATE_IN_PROGRESS')
+    re_writes = chain(writes_in(b), 'monitor_updating_restored', ['monitor_update_in_progress'])
+    cr_writes = chain(writes_in(sole(ch, 'channel_reestablish')), 'channel_reestablish', ['peer_disconnected'])
+    # remove_uncommitted_htlcs_and_mark_paused: early return when already disconnected, then the closing dance is forgotten, then the flag
+    b = sole(ch, 'remove_uncommitted_htlcs_and_mark_paused')
+    dm = re.match(r'^\{ assert!\(!matches!\(self\.context\.channel_state, ChannelState::ShutdownComplete\)\); if !self\.context\.can_resume_on_reconnect\(\) \{ return Err\(\(\)\) \} self\.context\.sent_message_awaiting_response = None; if (.*?) \{ return Ok\(\(\)\); \} ', b)
+    if not dm: raise TranslateError('remove_uncommitted_htlcs_and_mark_paused: the early returns changed shape: `%s`' % b[:300])
+    dis_noop = gcond(dm.group(1), 'remove_uncommitted_htlcs_and_mark_paused early return')
+    ws = writes_in(b)
+    if any(pos < dm.end() for _, pos in ws) or re.search(r'\breturn\b', b[dm.end():]):
+        raise TranslateError('remove_uncommitted_htlcs_and_mark_paused: a write before the early return / a return after it')
+    dis_fields = {w.split('=')[0]: w.split('=')[1] for w, _ in ws if '=' in w}
+    for fld in ('last_sent_closing_fee', 'pending_counterparty_closing_signed'):
+        if dis_fields.get(fld, 'kept') not in ('None', 'kept'): raise TranslateError('remove_uncommitted_htlcs_and_mark_paused: %s = %s' % (fld, dis_fields[fld]))
+    dis_writes = chain([x for x in ws if '=' not in x[0]], 'remove_uncommitted_htlcs_and_mark_paused', ['peer_disconnected'])
+    keep = lambda fld, var: 'false' if dis_fields.get(fld) == 'None' else var
+
     fields = list(funded) + [f for t in ('AwaitingChannelReadyFlags', 'ChannelReadyFlags', 'NegotiatingFundingFlags') for f in types[t][0]]
     vcode = {v: i for i, v in enumerate(VARIANTS)}
     L = ['/- GENERATED by tools/gen_closegate.py from lightning/src/ln/channel.rs — do not edit. -/',
@@ -396,7 +475,39 @@ def main():
           '/-- FundedChannel::timer_check_closing_negotiation_progress: (force-close error, new closing_signed_in_flight) -/',
           'def timerGate (ready in_flight : Bool) : Bool × Bool :=',
           '  if ready then (if in_flight then (true, in_flight) else (false, %s)) else (false, in_flight)' % tm.group(3), '',
-          'end Ldk.CloseGate.Gen', '']
+          ]
+
+    fv = ['FundingNegotiated', 'AwaitingChannelReady', 'ChannelReady']
+    L += ['/-! ## EFFECTS: what each action writes (round 6). The setters / clearers of `impl_state_flag!` act only in the variants that carry the flag. -/']
+    for flg in GATE_FLAGS:
+        g = 'is_' + flg
+        if g not in getters: raise TranslateError('no impl_state_flag! for %s' % g)
+        cond = ' || '.join('v == %d' % vcode[x] for x in getters[g][1])
+        C = camel(flg)[0].upper() + camel(flg)[1:]
+        L += ['def set%s (v : Nat) (f : Flags) : Flags := if %s then { f with %s := true } else f' % (C, cond, camel(getters[g][0])),
+              'def clear%s (v : Nat) (f : Flags) : Flags := if %s then { f with %s := false } else f' % (C, cond, camel(getters[g][0]))]
+    L += ['/-- WRITE CENSUS (pinned): every place of channel.rs that writes PEER_DISCONNECTED / MONITOR_UPDATE_IN_PROGRESS / the two SHUTDOWN_SENT flags,',
+          '    last_sent_closing_fee, pending_counterparty_closing_signed or closing_signed_in_flight, in text order -/',
+          'def gateWriteSites : List (String × String) := [' + ', '.join('("%s", "%s")' % c for c in census) + ']',
+          '/-- FundedChannel::get_shutdown past its refusals (every write follows the last `return Err`) -/',
+          'def getShutdownWrites (v : Nat) (f : Flags) : Flags := %s' % gs_writes,
+          '/-- FundedChannel::shutdown (the peer\'s shutdown) refuses, before anything is written, iff — peer disconnected, funding not yet broadcast',
+          '    (NegotiatingFunding, or FundingNegotiated with a signing session that lacks our witnesses), an inbound HTLC still RemoteAnnounced,',
+          '    stfu / quiescent, a non-compliant or changed script.  NOT among the refusals: a monitor update in flight (the ShutdownScript update queues). -/',
+          'def shutdownRefused (v : Nat) (f : Flags) (no_holder_witnesses remote_announced_htlc bad_script : Bool) : Bool :=', '  ' + sh_refused,
+          '/-- … and what it writes past "From here on out, we may not fail!" -/',
+          'def shutdownWrites (v : Nat) (f : Flags) : Flags := %s' % sh_writes,
+          '/-- monitor_updating_paused / monitor_updating_restored / channel_reestablish -/',
+          'def pausedWrites (v : Nat) (f : Flags) : Flags := %s' % pa_writes,
+          'def restoredWrites (v : Nat) (f : Flags) : Flags := %s' % re_writes,
+          'def reestablishWrites (v : Nat) (f : Flags) : Flags := %s' % cr_writes,
+          '/-- remove_uncommitted_htlcs_and_mark_paused: nothing is touched when (early return) -/',
+          'def disconnectNoop (v : Nat) (f : Flags) : Bool := %s' % dis_noop,
+          '/-- … otherwise: last_sent_closing_fee.is_some(), pending_counterparty_closing_signed.is_some() afterwards ("start the closing_signed dance over"), and the flag -/',
+          'def disconnectLastSent (last_sent : Bool) : Bool := %s' % keep('last_sent_closing_fee', 'last_sent'),
+          'def disconnectParked (parked : Bool) : Bool := %s' % keep('pending_counterparty_closing_signed', 'parked'),
+          'def disconnectWrites (v : Nat) (f : Flags) : Flags := %s' % dis_writes, '']
+    L += ['end Ldk.CloseGate.Gen', '']
     text = '\n'.join(L)
     old = open(OUT).read() if os.path.exists(OUT) else None
     if old != text:
